@@ -73,40 +73,62 @@ func ruleSplitGuard(c *chk.Ctx) {
 			c.Undecided("PAIR.splitguard", f, "write", f.Pos(), "no write found in a delimiter framing's Send")
 			continue
 		}
+		// found(cd): +1 when the outcome says the delimiter does not occur in the message, -1 when
+		// it says it does, 0 when it is about something else
+		found := func(cd ir.Cond) int {
+			x, y, op, ok := ir.Rel(cd)
+			if !ok {
+				// only a byte search decides this: bytes.ContainsRune looks for the UTF-8 encoding
+				// of the rune, which for delimiters ≥ 0x80 is not the delimiter byte
+				return 0
+			}
+			call, ok := x.(*ssa.Call)
+			if !ok || !ir.IsCallTo(&call.Call, "bytes.IndexByte") {
+				return 0
+			}
+			// second argument is the delimiter field; first the message parameter
+			if _, isParam := c.P.Canon(call.Call.Args[0]).(*ssa.Parameter); !isParam {
+				return 0
+			}
+			if u, isU := call.Call.Args[1].(*ssa.UnOp); !isU || !isFieldLoadNamed(u, delim) {
+				return 0
+			}
+			k, isC := ir.ConstInt(y)
+			if !isC {
+				return 0
+			}
+			switch {
+			case (op == token.LSS && k == 0) || (op == token.EQL && k == -1) || (op == token.LEQ && k == -1):
+				return 1
+			case (op == token.GEQ && k == 0) || (op == token.NEQ && k == -1) || (op == token.GTR && k == -1):
+				return -1
+			}
+			return 0
+		}
 		for _, w := range writes {
-			guarded := false
-			for _, cd := range ir.CondsAt(w.Block()) {
-				bo, ok := cd.V.(*ssa.BinOp)
-				if !ok {
-					continue
+			guarded := true
+			alts := expandPredicateHelpers(c, ir.CondsAt(w.Block()), 0)
+			for _, alt := range alts {
+				nf := false
+				for _, cd := range alt {
+					if found(cd) == 1 {
+						nf = true
+					}
 				}
-				call, ok := bo.X.(*ssa.Call)
-				if !ok || !ir.IsCallTo(&call.Call, "bytes.IndexByte", "bytes.Contains", "bytes.ContainsRune") {
-					continue
-				}
-				// second argument is the delimiter field; first the message parameter
-				if _, isParam := call.Call.Args[0].(*ssa.Parameter); !isParam {
-					continue
-				}
-				if u, isU := call.Call.Args[1].(*ssa.UnOp); !isU || !isFieldLoadNamed(u, delim) {
-					continue
-				}
-				k, _ := ir.ConstInt(bo.Y)
-				notFound := (bo.Op == token.GEQ && k == 0 && !cd.Truth) || (bo.Op == token.LSS && k == 0 && cd.Truth) || (bo.Op == token.EQL && k == -1 && cd.Truth) || (bo.Op == token.NEQ && k == -1 && !cd.Truth)
-				if notFound {
-					guarded = true
+				if !nf {
+					guarded = false
 				}
 			}
-			c.Check(guarded, "PAIR.splitguard", f, "write only without the split byte", w.Pos(), "the write is dominated by the 'delimiter not found in msg' edge; the other edge returns without writing",
+			c.Check(guarded && len(alts) > 0, "PAIR.splitguard", f, "write only without the split byte", w.Pos(), "the write is dominated by the 'delimiter not found in msg' edge; the other edge returns without writing",
 				"a record containing the split byte can be written: the receiver would see it as two records")
 		}
 		// the found edge returns a non-nil error
 		okErr := false
 		for _, r := range ir.Returns(f) {
 			if !ir.IsNilConst(ir.ReturnResult(r, 0)) {
-				for _, cd := range ir.CondsAt(r.Block()) {
-					if bo, ok := cd.V.(*ssa.BinOp); ok {
-						if call, ok := bo.X.(*ssa.Call); ok && ir.IsCallTo(&call.Call, "bytes.IndexByte", "bytes.Contains") {
+				for _, alt := range expandPredicateHelpers(c, ir.CondsAt(r.Block()), 0) {
+					for _, cd := range alt {
+						if found(cd) == -1 {
 							okErr = true
 						}
 					}
@@ -257,25 +279,52 @@ func ruleDirectEOF(c *chk.Ctx) {
 // C12-D1/D2: bounded, non-negative length
 
 func ruleBoundedLength(c *chk.Ctx) {
-	nSinks := 0
-	for _, f := range pkgFuncs(c, c.M.ChanPkg) {
-		// taint from numeric parsers
-		taint := map[ssa.Value]bool{}
-		var roots []ssa.Value
+	funcs := pkgFuncs(c, c.M.ChanPkg)
+	inPkg := map[*ssa.Function]bool{}
+	for _, f := range funcs {
+		inPkg[f] = true
+	}
+	// taint from numeric parsers, propagated through arithmetic, conversions, phis, local cells,
+	// and across the package's own functions (arguments → parameters, returns → call results)
+	taint := map[ssa.Value]bool{}
+	nRoots := 0
+	for _, f := range funcs {
 		ir.Instrs(f, func(ins ssa.Instruction) {
 			if e, ok := ins.(*ssa.Extract); ok && e.Index == 0 {
 				if call, ok := e.Tuple.(*ssa.Call); ok && ir.IsCallTo(&call.Call, "strconv.Atoi", "strconv.ParseInt", "strconv.ParseUint") {
 					taint[e] = true
-					roots = append(roots, e)
+					nRoots++
 				}
 			}
 		})
-		if len(roots) == 0 {
-			continue
+	}
+	returnsTainted := func(g *ssa.Function, idx int) bool {
+		for _, r := range ir.Returns(g) {
+			if idx < len(r.Results) && taint[ir.ReturnResult(r, idx)] {
+				return true
+			}
 		}
-		changed := true
-		for changed {
-			changed = false
+		return false
+	}
+	changed := nRoots > 0
+	for changed {
+		changed = false
+		for _, f := range funcs {
+			for _, p := range f.Params {
+				if taint[p] {
+					continue
+				}
+				for i, q := range f.Params {
+					if q != p {
+						continue
+					}
+					for _, s := range c.P.Callers(f) {
+						if args := s.Instr.Common().Args; i < len(args) && taint[args[i]] {
+							taint[p], changed = true, true
+						}
+					}
+				}
+			}
 			ir.Instrs(f, func(ins ssa.Instruction) {
 				v, ok := ins.(ssa.Value)
 				if !ok || taint[v] {
@@ -299,78 +348,142 @@ func ruleBoundedLength(c *chk.Ctx) {
 							taint[v], changed = true, true
 						}
 					}
+				case *ssa.UnOp:
+					if al, ok := x.X.(*ssa.Alloc); ok && x.Op == token.MUL {
+						for _, st := range ir.CellStores(al) {
+							if taint[st.Val] {
+								taint[v], changed = true, true
+							}
+						}
+					}
+				case *ssa.Extract:
+					if call, ok := x.Tuple.(*ssa.Call); ok {
+						if g := call.Call.StaticCallee(); g != nil && inPkg[g] && returnsTainted(g, x.Index) {
+							taint[v], changed = true, true
+						}
+					}
+				case *ssa.Call:
+					if g := x.Call.StaticCallee(); g != nil && inPkg[g] && g.Signature.Results().Len() == 1 && returnsTainted(g, 0) {
+						taint[v], changed = true, true
+					}
 				}
 			})
 		}
-		// bounds known for a tainted value at a block (looking through arithmetic to the compared value)
-		bounds := func(at *ssa.BasicBlock) (lower, upper bool) {
-			for _, cd := range ir.CondsAt(at) {
-				bo, ok := cd.V.(*ssa.BinOp)
-				if !ok {
-					continue
-				}
-				op := bo.Op
-				var k int64
-				var isC bool
-				switch {
-				case taint[bo.X]:
-					k, isC = ir.ConstInt(bo.Y)
-				case taint[bo.Y]: // constant on the left: k OP x  ≡  x OP' k
-					k, isC = ir.ConstInt(bo.X)
-					switch op {
-					case token.LSS:
-						op = token.GTR
-					case token.GTR:
-						op = token.LSS
-					case token.LEQ:
-						op = token.GEQ
-					case token.GEQ:
-						op = token.LEQ
-					}
-				default:
-					continue
-				}
-				if !isC {
-					continue
-				}
-				if !cd.Truth {
-					switch op {
-					case token.LSS:
-						op = token.GEQ
-					case token.GEQ:
-						op = token.LSS
-					case token.GTR:
-						op = token.LEQ
-					case token.LEQ:
-						op = token.GTR
-					}
-				}
+	}
+	// bounds established by a list of branch outcomes on some tainted value
+	boundsOf := func(conds []ir.Cond) (lower, upper bool) {
+		for _, cd := range conds {
+			x, y, op, ok := ir.Rel(cd)
+			if !ok {
+				continue
+			}
+			var k int64
+			var isC bool
+			switch {
+			case taint[x]:
+				k, isC = ir.ConstInt(y)
+			case taint[y]: // constant on the left: k OP x  ≡  x OP' k
+				k, isC = ir.ConstInt(x)
 				switch op {
-				case token.GEQ:
-					if k >= 0 {
-						lower = true
-					}
+				case token.LSS:
+					op = token.GTR
 				case token.GTR:
-					if k >= -1 {
-						lower = true
-					}
-				case token.LEQ, token.LSS:
-					upper = true
+					op = token.LSS
+				case token.LEQ:
+					op = token.GEQ
+				case token.GEQ:
+					op = token.LEQ
+				}
+			default:
+				continue
+			}
+			if !isC {
+				continue
+			}
+			switch op {
+			case token.GEQ:
+				if k >= 0 {
+					lower = true
+				}
+			case token.GTR:
+				if k >= -1 {
+					lower = true
+				}
+			case token.LEQ, token.LSS:
+				upper = true
+			}
+		}
+		return
+	}
+	// what a successful return of a package function guarantees about the tainted value it
+	// returns: the outcomes common to all its returns that hand back a tainted value
+	successConds := func(g *ssa.Function) []ir.Cond {
+		var out []ir.Cond
+		first := true
+		for _, r := range ir.Returns(g) {
+			tainted := false
+			for i := range r.Results {
+				if taint[ir.ReturnResult(r, i)] {
+					tainted = true
 				}
 			}
-			return
+			if !tainted {
+				continue
+			}
+			cs := ir.CondsAt(r.Block())
+			if first {
+				out, first = cs, false
+				continue
+			}
+			var keep []ir.Cond
+			for _, a := range out {
+				for _, b := range cs {
+					if a.V == b.V && a.Truth == b.Truth {
+						keep = append(keep, a)
+					}
+				}
+			}
+			out = keep
 		}
-		// the value compared must be downstream of any signedness-changing conversion
-		postConv := func(v ssa.Value) bool {
-			// v (or what it was computed from) must not pass through a Convert after the compared value...
-			return true
+		return out
+	}
+	// outcomes known at an instruction: those of its block, plus the guarantees of the package
+	// functions whose (tainted) results were obtained by calls dominating it
+	localConds := func(at ssa.Instruction) []ir.Cond {
+		out := append([]ir.Cond{}, ir.CondsAt(at.Block())...)
+		ir.Instrs(at.Parent(), func(i2 ssa.Instruction) {
+			call, ok := i2.(*ssa.Call)
+			if !ok || !ir.InstrDominates(call, at) {
+				return
+			}
+			if g := call.Call.StaticCallee(); g != nil && inPkg[g] && g != at.Parent() {
+				out = append(out, successConds(g)...)
+			}
+		})
+		return out
+	}
+	// bounds at an instruction in every calling context (through the package's private functions)
+	var boundsAt func(at ssa.Instruction, depth int) (bool, bool)
+	boundsAt = func(at ssa.Instruction, depth int) (bool, bool) {
+		lo, up := boundsOf(localConds(at))
+		if (lo && up) || depth > 4 {
+			return lo, up
 		}
-		_ = postConv
-		signedOK := func() bool {
-			// if the parse is unsigned (ParseUint) and converted to int, the lower bound must be established on the converted value
-			return true
+		f := at.Parent()
+		sites := c.P.Callers(f)
+		if len(sites) == 0 || ir.Exported(f) || c.P.UsedAsValue(f) {
+			return lo, up
 		}
-		_ = signedOK
+		allLo, allUp := true, true
+		for _, s := range sites {
+			l2, u2 := boundsAt(s.Instr, depth+1)
+			allLo = allLo && l2
+			allUp = allUp && u2
+		}
+		return lo || allLo, up || allUp
+	}
+	nSinks := 0
+	for _, f := range funcs {
 		ir.Instrs(f, func(ins ssa.Instruction) {
 			switch x := ins.(type) {
 			case *ssa.MakeSlice:
@@ -378,7 +491,7 @@ func ruleBoundedLength(c *chk.Ctx) {
 					return
 				}
 				nSinks++
-				lo, up := bounds(x.Block())
+				lo, up := boundsAt(x, 0)
 				lo = lo && lowerOnFinalType(f, taint, x.Block())
 				c.Check(lo && up, "PROV.length", f, "allocation sized by a parsed length", x.Pos(), "the parsed length is bounded below by 0 and above by a constant where it sizes an allocation",
 					fmt.Sprintf("a length parsed from the stream sizes an allocation without a %s bound: an absurd or overflowing Content-Length would panic in makeslice or exhaust memory", missing(lo, up)))
@@ -387,7 +500,7 @@ func ruleBoundedLength(c *chk.Ctx) {
 					return
 				}
 				nSinks++
-				lo, _ := bounds(x.Block())
+				lo, _ := boundsAt(x, 0)
 				lo = lo && lowerOnFinalType(f, taint, x.Block())
 				c.Check(lo, "PROV.length", f, "slice bound by a parsed length", x.Pos(), "the parsed length is known non-negative where it bounds a slice", "a length parsed from the stream bounds a slice without a non-negative check: a negative (or wrapped) value would panic with slice bounds out of range")
 			}
@@ -441,7 +554,7 @@ func missing(lo, up bool) string {
 // ruleLengthRequired: the length is parsed only when the header was present,
 // and parse errors are errors.
 func ruleLengthRequired(c *chk.Ctx) {
-	for _, f := range chanMethods(c, "Recv") {
+	for _, f := range pkgFuncs(c, c.M.ChanPkg) {
 		var parse *ssa.Call
 		ir.Instrs(f, func(ins ssa.Instruction) {
 			if call, ok := ins.(*ssa.Call); ok && ir.IsCallTo(&call.Call, "strconv.Atoi", "strconv.ParseInt", "strconv.ParseUint") {
@@ -463,7 +576,7 @@ func ruleLengthRequired(c *chk.Ctx) {
 		// the parse error leads to an error return
 		okErr := false
 		for _, r := range ir.Returns(f) {
-			if ir.IsNilConst(ir.ReturnResult(r, 1)) {
+			if len(r.Results) == 0 || ir.IsNilConst(ir.ReturnResult(r, len(r.Results)-1)) {
 				continue
 			}
 			for _, cd := range ir.CondsAt(r.Block()) {
@@ -491,105 +604,180 @@ func ruleLengthRequired(c *chk.Ctx) {
 // ---------------------------------------------------------------------------
 // C12-D3 and accumulation integrity in delimiter framing
 
-func ruleDelimiterRecv(c *chk.Ctx) {
+// effectiveReturns lists the returns that decide f's results: its own, with
+// every `return h(...)` of a private helper h replaced by h's returns.
+func effectiveReturns(c *chk.Ctx, f *ssa.Function, depth int) []*ssa.Return {
+	var out []*ssa.Return
+	for _, r := range ir.Returns(f) {
+		var tail *ssa.Call
+		if depth < 3 && len(r.Results) >= 1 {
+			all := true
+			for i := range r.Results {
+				v := ir.ReturnResult(r, i)
+				var call *ssa.Call
+				if e, ok := v.(*ssa.Extract); ok && e.Index == i {
+					call, _ = e.Tuple.(*ssa.Call)
+				} else if cv, ok := v.(*ssa.Call); ok && len(r.Results) == 1 {
+					call = cv
+				}
+				if call == nil || (tail != nil && call != tail) {
+					all = false
+					break
+				}
+				tail = call
+			}
+			if !all {
+				tail = nil
+			}
+		}
+		if tail != nil {
+			if g := tail.Call.StaticCallee(); g != nil && c.P.InRepo[g] && !ir.Exported(g) && g != f {
+				out = append(out, effectiveReturns(c, g, depth+1)...)
+				continue
+			}
+		}
+		out = append(out, r)
+	}
+	return out
+}
+
+// delimModel describes a delimiter-framing receiver: its read-primitive calls,
+// its accumulation buffer, and predicates for "the accumulated line" and "the
+// read primitive's own error", all decided by provenance so that they hold
+// across private helpers.
+type delimModel struct {
+	f       *ssa.Function
+	reads   []*ssa.Call
+	buf     *ssa.Alloc
+	isAccum func(ssa.Value) bool
+	isErr   func(ssa.Value) bool
+}
+
+func delimiterRecv(c *chk.Ctx) *delimModel {
 	for _, f := range chanMethods(c, "Recv") {
-		var rs *ssa.Call
-		ir.Instrs(f, func(ins ssa.Instruction) {
-			if call, ok := ins.(*ssa.Call); ok && ir.IsCallTo(&call.Call, "(*bufio.Reader).ReadSlice", "(*bufio.Reader).ReadBytes", "(*bufio.Reader).ReadString") {
-				if _, isHdr := recvStruct(f).Field(0).Type().Underlying().(*types.Basic); isHdr || true {
-					rs = call
-				}
+		m := &delimModel{f: f}
+		c.P.ExtInstrs(f, func(ins ssa.Instruction) {
+			if call, ok := ins.(*ssa.Call); ok && ir.IsCallTo(&call.Call, "(*bufio.Reader).ReadSlice") {
+				m.reads = append(m.reads, call)
 			}
 		})
-		if rs == nil || !ir.IsCallTo(&rs.Call, "(*bufio.Reader).ReadSlice") {
+		if len(m.reads) == 0 {
 			continue
 		}
-		// accumulation buffer: local bytes.Buffer written with the chunk
-		var buf *ssa.Alloc
-		ir.Calls(f, func(ci ssa.CallInstruction) {
-			if ir.IsCallTo(ci.Common(), "(*bytes.Buffer).Write") && ir.IsExtractOf(ci.Common().Args[1], rs, 0) {
-				if al, ok := ci.Common().Args[0].(*ssa.Alloc); ok {
-					buf = al
-				}
-			}
-		})
-		if buf == nil {
-			c.Undecided("PAIR.accumulate", f, "accumulation buffer", f.Pos(), "no local buffer accumulating ReadSlice chunks found")
-			continue
-		}
-		isAccum := func(v ssa.Value) bool {
-			for i := 0; i < 4; i++ {
-				switch x := v.(type) {
-				case *ssa.Slice:
-					v = x.X
-				case *ssa.Call:
-					return ir.IsCallTo(&x.Call, "(*bytes.Buffer).Bytes") && x.Call.Args[0] == ssa.Value(buf)
-				default:
-					return false
-				}
-			}
-			return false
-		}
-		emptyKnown := func(b *ssa.BasicBlock) bool {
-			for _, cd := range ir.CondsAt(b) {
-				bo, ok := cd.V.(*ssa.BinOp)
-				if !ok {
-					continue
-				}
-				k, isC := ir.ConstInt(bo.Y)
-				if !isC {
-					continue
-				}
-				var subject ssa.Value
-				if x, isLen := ir.LenOf(bo.X); isLen {
-					subject = x
-				} else if call, ok := bo.X.(*ssa.Call); ok && ir.IsCallTo(&call.Call, "(*bytes.Buffer).Len") && call.Call.Args[0] == ssa.Value(buf) {
-					subject = call
-				}
-				if subject == nil {
-					continue
-				}
-				if _, isBufLen := subject.(*ssa.Call); !isBufLen && !isAccum(subject) {
-					continue
-				}
-				if (bo.Op == token.EQL && k == 0 && cd.Truth) || (bo.Op == token.NEQ && k == 0 && !cd.Truth) || (bo.Op == token.GTR && k == 0 && !cd.Truth) || (bo.Op == token.LSS && k == 1 && cd.Truth) {
+		isRead := func(v ssa.Value, idx int) bool {
+			for _, rs := range m.reads {
+				if ir.IsExtractOf(v, rs, idx) {
 					return true
 				}
 			}
 			return false
 		}
-		for _, r := range ir.Returns(f) {
-			d := ir.ReturnResult(r, 0)
-			switch {
-			case isAccum(d):
-				c.Pass("PAIR.accumulate", f, "returned data is the accumulated line", r.Pos(), "data result derives from the accumulation buffer")
-			case ir.IsNilConst(d):
-				c.Check(emptyKnown(r.Block()), "PAIR.accumulate", f, "nothing returned only when nothing was read", r.Pos(), "a nil record is returned only where the accumulated line is known to be empty", "Recv can return no data while bytes have been accumulated (on a path where the accumulated line is not known to be empty): a record would be silently dropped or shortened")
-			default:
-				c.Fail("PAIR.accumulate", f, "returned data", r.Pos(), "the data returned is neither the accumulated line nor nil")
+		// the accumulation buffer: a local bytes.Buffer that receives every chunk read
+		written := map[*ssa.Alloc]int{}
+		c.P.ExtCalls(f, func(ci ssa.CallInstruction) {
+			if ir.IsCallTo(ci.Common(), "(*bytes.Buffer).Write") && isRead(ir.NormCell(ci.Common().Args[1]), 0) {
+				if al, ok := ci.Common().Args[0].(*ssa.Alloc); ok {
+					written[al]++
+				}
+			}
+		})
+		for al, n := range written {
+			if n == len(m.reads) {
+				m.buf = al
 			}
 		}
-		// stripping the last byte only when it is the delimiter
-		ir.Instrs(f, func(ins ssa.Instruction) {
-			sl, ok := ins.(*ssa.Slice)
-			if !ok || sl.High == nil {
-				return
+		isBytes := func(v ssa.Value) bool {
+			call, ok := v.(*ssa.Call)
+			return ok && m.buf != nil && ir.IsCallTo(&call.Call, "(*bytes.Buffer).Bytes") && call.Call.Args[0] == ssa.Value(m.buf)
+		}
+		m.isAccum = func(v ssa.Value) bool {
+			n := 0
+			for _, src := range c.P.SourcesStop(v, isBytes) {
+				if !isBytes(src) {
+					return false
+				}
+				n++
 			}
-			bo, ok := sl.High.(*ssa.BinOp)
-			if !ok || bo.Op != token.SUB {
-				return
+			return n > 0
+		}
+		m.isErr = func(v ssa.Value) bool {
+			n := 0
+			for _, src := range c.P.SourcesStop(v, func(x ssa.Value) bool { return isRead(x, 1) }) {
+				if !isRead(src, 1) {
+					return false
+				}
+				n++
 			}
-			if k, isC := ir.ConstInt(bo.Y); !isC || k != 1 {
-				return
-			}
-			sameErr := func(v ssa.Value) bool { return ir.IsExtractOf(v, rs, 1) }
-			okStrip := ir.ProvesNil(ir.CondsAt(sl.Block()), sameErr)
-			c.Check(okStrip, "PAIR.strip", f, "last byte stripped only when it is the delimiter", sl.Pos(), "the final byte is dropped only on the err == nil edge of ReadSlice (the only case in which it is the delimiter)", "the final byte is dropped although ReadSlice may have failed: an unterminated last record loses its last byte")
-		})
-		// the loop continues only on ErrBufferFull
+			return n > 0
+		}
+		return m
+	}
+	return nil
+}
+
+func ruleDelimiterRecv(c *chk.Ctx) {
+	m := delimiterRecv(c)
+	if m == nil {
+		c.Undecided("PAIR.accumulate", nil, "delimiter Recv", 0, "no delimiter-framing Recv found")
 		return
 	}
-	c.Undecided("PAIR.accumulate", nil, "delimiter Recv", 0, "no delimiter-framing Recv found")
+	f := m.f
+	if m.buf == nil {
+		c.Undecided("PAIR.accumulate", f, "accumulation buffer", f.Pos(), "no local buffer accumulating every ReadSlice chunk found")
+		return
+	}
+	emptyKnown := func(b *ssa.BasicBlock) bool {
+		for _, cd := range ir.CondsAt(b) {
+			x, y, op, ok := ir.Rel(cd)
+			if !ok {
+				continue
+			}
+			k, isC := ir.ConstInt(y)
+			if !isC {
+				continue
+			}
+			isSubject := false
+			if sv, isLen := ir.LenOf(x); isLen && m.isAccum(sv) {
+				isSubject = true
+			} else if call, ok := x.(*ssa.Call); ok && ir.IsCallTo(&call.Call, "(*bytes.Buffer).Len") && call.Call.Args[0] == ssa.Value(m.buf) {
+				isSubject = true
+			}
+			if !isSubject {
+				continue
+			}
+			if (op == token.EQL && k == 0) || (op == token.LEQ && k == 0) || (op == token.LSS && k == 1) {
+				return true
+			}
+		}
+		return false
+	}
+	for _, r := range effectiveReturns(c, f, 0) {
+		d := ir.ReturnResult(r, 0)
+		switch {
+		case ir.IsNilConst(d):
+			c.Check(emptyKnown(r.Block()), "PAIR.accumulate", f, "nothing returned only when nothing was read", r.Pos(), "a nil record is returned only where the accumulated line is known to be empty", "Recv can return no data while bytes have been accumulated (on a path where the accumulated line is not known to be empty): a record would be silently dropped or shortened")
+		case m.isAccum(d):
+			c.Pass("PAIR.accumulate", f, "returned data is the accumulated line", r.Pos(), "data result derives from the accumulation buffer")
+		default:
+			c.Fail("PAIR.accumulate", f, "returned data", r.Pos(), "the data returned is neither the accumulated line nor nil")
+		}
+	}
+	// stripping the last byte only when it is the delimiter
+	c.P.ExtInstrs(f, func(ins ssa.Instruction) {
+		sl, ok := ins.(*ssa.Slice)
+		if !ok || sl.High == nil {
+			return
+		}
+		bo, ok := sl.High.(*ssa.BinOp)
+		if !ok || bo.Op != token.SUB {
+			return
+		}
+		if k, isC := ir.ConstInt(bo.Y); !isC || k != 1 {
+			return
+		}
+		okStrip := ir.ProvesNil(ir.CondsAt(sl.Block()), m.isErr)
+		c.Check(okStrip, "PAIR.strip", sl.Parent(), "last byte stripped only when it is the delimiter", sl.Pos(), "the final byte is dropped only on the err == nil edge of ReadSlice (the only case in which it is the delimiter)", "the final byte is dropped although ReadSlice may have failed: an unterminated last record loses its last byte")
+	})
 }
 
 // ruleFullReads: a Read whose byte count is ignored cannot fill a record.
@@ -838,30 +1026,21 @@ func ruleRecordFilledByFullRead(c *chk.Ctx) {
 // with an error hands back the read primitive's own error (the server accepts
 // data only with io.EOF).
 func ruleDataWithReaderError(c *chk.Ctx) {
-	for _, f := range chanMethods(c, "Recv") {
-		var rs *ssa.Call
-		ir.Instrs(f, func(ins ssa.Instruction) {
-			if call, ok := ins.(*ssa.Call); ok && ir.IsCallTo(&call.Call, "(*bufio.Reader).ReadSlice") {
-				rs = call
-			}
-		})
-		if rs == nil {
-			continue
-		}
-		for _, r := range ir.Returns(f) {
-			d, e := ir.ReturnResult(r, 0), ir.ReturnResult(r, 1)
-			if ir.IsNilConst(e) {
-				continue
-			}
-			if ir.IsNilConst(d) {
-				continue
-			}
-			c.Check(ir.IsExtractOf(e, rs, 1), "PAIR.dataerr", f, "data is returned with the reader's own error", r.Pos(), "an unterminated final record is returned with ReadSlice's own error (io.EOF at end of stream), which is the case the server's reader accepts", "data is returned together with an error that is not the read primitive's own: the server accepts data-with-error only for io.EOF, so a final unterminated record would be dropped")
-		}
+	m := delimiterRecv(c)
+	if m == nil {
 		return
 	}
+	for _, r := range effectiveReturns(c, m.f, 0) {
+		d, e := ir.ReturnResult(r, 0), ir.ReturnResult(r, 1)
+		if ir.IsNilConst(e) {
+			continue
+		}
+		if ir.IsNilConst(d) {
+			continue
+		}
+		c.Check(m.isErr(e), "PAIR.dataerr", m.f, "data is returned with the reader's own error", r.Pos(), "an unterminated final record is returned with ReadSlice's own error (io.EOF at end of stream), which is the case the server's reader accepts", "data is returned together with an error that is not the read primitive's own: the server accepts data-with-error only for io.EOF, so a final unterminated record would be dropped")
+	}
 }
-
 
 func dedupStrings(in []string) []string {
 	seen := map[string]bool{}
